@@ -85,12 +85,10 @@ func (r *RedundantWhitespaceRule) Check(ctx *linter.Context) ([]linter.Violation
 				// Calculate actual column in original line
 				column := part.startCol + match[0] + 1 // 1-indexed
 
-				// Skip if this is at the beginning of line (indentation)
-				if part.startCol == 0 && match[0] == 0 {
-					// Check if it's leading whitespace on the line
-					if strings.TrimLeft(line[:column], " \t") == "" {
-						continue // Skip leading indentation
-					}
+				// Skip indentation: a run that lies in the leading blanks and tabs of
+				// the line (Fix leaves the whole leading prefix alone, too)
+				if column-1 <= len(line) && strings.TrimLeft(line[:column-1], " \t") == "" {
+					continue
 				}
 
 				violations = append(violations, linter.Violation{
